@@ -89,6 +89,11 @@ def _mindim(kind, name, mind):
     return mind
 
 
+def register_templates():
+    """register_awkward() racing with Awkward construction and use: 24 variants x 4 schedules."""
+    return [("register", v, q) for q in range(4) for v in range(24)]
+
+
 def _unused_templates():
     if True:
         pass
@@ -104,6 +109,9 @@ def gen_case(seed, tier, focus):
     elif idx >= 80000:
         tpl = pair_templates()
         t = tpl[(idx - 80000) % len(tpl)]
+    elif idx >= 70000:
+        tpl = register_templates()
+        t = tpl[(idx - 70000) % len(tpl)]
     else:
         tpl = templates()
         t = tpl[idx % len(tpl)]
@@ -191,7 +199,7 @@ def _raise_case(g, rng, t):
     if fault == "mixlib":
         # force the partner to be the sympy vector of a suitable dimension
         for q, a in enumerate(op.get("a", [])[1:], start=1):
-            if isinstance(a, dict) and a.get("$") == "p":
+            if isinstance(a, dict) and a.get("$") == "p" and g.desc[a["v"]].be in ("obj", "np", "ak", "akrec", "sym"):
                 want = g.desc[a["v"]].dim if a["v"] < len(g.desc) else dim
                 sy = [s for s, d in enumerate(g.desc) if d.be == "sym" and d.dim == want] or [s for s, d in enumerate(g.desc) if d.be == "sym"]
                 op["a"][q] = P(sy[0])
@@ -243,7 +251,8 @@ def _rendezvous_case(g, rng, t):
 
 
 def _register_case(g, rng, t):
-    _, variant = t
+    variant = t[1]
+    qsched = t[2] if len(t) > 2 else None
     k = _base_knobs(g, 2 + (variant % 2))
     k["awk_mode"] = "unregistered" if variant % 4 else "registered_before"
     k["backends"] = {"obj": True, "np": False, "ak": True, "sym": False}
@@ -257,11 +266,13 @@ def _register_case(g, rng, t):
         body = []
         for _ in range(rng.choice((2, 3, 4))):
             r = rng.random()
-            if r < 0.4:
-                o = g.op_construct(k, 0, 0, {})
-                if o["f"] not in ("vector.Array", "vector.zip"):
-                    sys_ = g.pick_sys()
-                    data = g._ak_records(sys_, rng.random() < 0.5, 2, False)
+            if r < 0.55:
+                # constructors read the flag and build against the registry: the interesting ops for this race
+                sys_ = g.pick_sys()
+                data = g._ak_records(sys_, rng.random() < 0.5, 2, False)
+                if rng.random() < 0.65:
+                    o = {"f": "vector.zip", "a": [{nm: [rec[nm] for rec in data] for nm in data[0]}]}
+                else:
                     o = {"f": "vector.Array", "a": [data]}
                 o["cat"] = "directed"
                 body.append(o)
@@ -271,6 +282,10 @@ def _register_case(g, rng, t):
     if variant % 5 == 0:
         progs[-1].append(dict(reg))
     sched = {"kind": "sites", "seed": rng.randrange(1 << 30), "p": rng.choice((1.0, 0.5)), "which": ["flag", "store", "func"], "domain": "line", "observe": 2}
+    if qsched is not None:
+        sched = [{"kind": "parkop", "p": 1.0, "which": ["flag", "store", "func"]}, {"kind": "parkop", "p": 0.5, "which": ["flag", "store", "func"]},
+                 {"kind": "sites", "p": 0.5, "which": ["flag", "store", "func", "with"]}, {"kind": "parkop", "p": 0.25, "which": ["flag", "store", "func"]}][qsched]
+        sched.update(seed=rng.randrange(1 << 30), domain="line", observe=2)
     return _finish(g, k, progs, [], sched, niso=0)
 
 
@@ -401,7 +416,7 @@ def _pair_case(g, rng, t):
         for which in ([q] if rng.random() < 0.5 else [q, 1 - q]):
             op = _call_for(g, selfs[which], kind, name)
             for pos, a_ in enumerate(op.get("a", [])[1:], start=1):
-                if isinstance(a_, dict) and a_.get("$") == "p":
+                if isinstance(a_, dict) and a_.get("$") == "p" and g.desc[a_["v"]].be in ("obj", "np", "ak", "akrec", "sym"):
                     want = g.desc[a_["v"]].dim
                     op["a"][pos] = P(partners[which][want])
             op["cat"] = "pair"
